@@ -152,6 +152,94 @@ def run_table(ctx, si, overridden, rep):
         env.close()
 
 
+def run_history(ctx, steps, rep, fix=None):
+    """One long-lived enforcer decides a sequence of requests; between
+    requests the operator may flip [oslo_policy] enforce_scope.  Every
+    request must be decided by the table row of the settings in force at
+    that moment (nothing about scope is remembered between calls)."""
+    from oslo_context import context
+    from oslo_policy import policy
+    common.set_ctx(ctx)
+    common.register_leaves()
+    env = common.PolicyEnv()
+    try:
+        enf = env.enforcer(
+            defaults=[policy.RuleDefault('sys', 'sym:a',
+                                         scope_types=['system']),
+                      policy.RuleDefault('proj', 'sym:b',
+                                         scope_types=['project', 'domain']),
+                      policy.RuleDefault('any', 'sym:c')],
+            enforce_scope=True)
+        trace = []
+        for i in range(steps):
+            es = bool(ctx.bool('enforce_scope%d' % i))
+            enf.conf.set_override('enforce_scope', es, group='oslo_policy')
+            token = ctx.choice('token%d' % i, SCOPES)
+            name = ctx.choice('name%d' % i, ['sys', 'proj', 'any'])
+            if fix and i == 0:
+                # cube split only: the first request's row is fixed per cube
+                ctx.assume(name == fix[0])
+                ctx.assume(token == fix[1])
+            do_raise = bool(ctx.bool('do_raise%d' % i))
+            kw = {'system': {'system_scope': 'all'},
+                  'domain': {'domain_id': 'd1'},
+                  'project': {'project_id': 'p1'}}[str(token)]
+            if rep == 'dict':
+                creds = dict({'user_id': 'u', 'roles': ['member']}, **kw)
+            else:
+                rc = context.RequestContext(user_id='u', roles=['member'],
+                                            **kw)
+                creds = rc if rep == 'context' else rc.to_policy_values()
+            types = {'sys': ['system'], 'proj': ['project', 'domain'],
+                     'any': None}[str(name)]
+            outcome = _leaf({'sys': 'a', 'proj': 'b', 'any': 'c'}[str(name)])
+            mismatch = bool(types) and str(token) not in types
+            gate = mismatch and es
+
+            def call():
+                try:
+                    return ('ret', bool(enf.enforce(str(name), {}, creds,
+                                                    do_raise=do_raise)))
+                except policy.InvalidScope:
+                    return ('InvalidScope', True)
+                except policy.PolicyNotAuthorized:
+                    return ('PolicyNotAuthorized', True)
+            got = ctx.summarize(call)
+            trace.append([es, str(token), str(name), do_raise])
+            ctx.observe('got%d' % i, got)
+
+            def is_(v):
+                return lambda k, x: k == 'ret' and tuple(x) == v
+
+            def req(cond, label, got=got):
+                tr = list(trace)
+                ctx.require(mkbool(cond), label, detail=lambda m: {
+                    'rep': rep, 'trace': tr, 'got': got.describe(m)})
+            req(z3.Not(got.raises()), 'history:undocumented-exception')
+            if gate:
+                ctx.cover('history:gate')
+                want = ('InvalidScope', True) if do_raise else ('ret', False)
+                req(got.where(is_(want)), 'history:gate-not-applied')
+            else:
+                if mismatch:
+                    ctx.cover('history:mismatch-not-enforced')
+                req(got.where(is_(('ret', True))) == outcome,
+                    'history:decision-is-the-check')
+                req(got.where(is_(('InvalidScope', True))) ==
+                    z3.BoolVal(False), 'history:gate-applied-wrongly')
+        ctx.observe('trace', trace)
+    finally:
+        env.close()
+
+
+def cubes_history(tier, seed):
+    out = [{'steps': 2, 'rep': r} for r in REPRS]
+    if tier != 'quick':
+        out += [{'steps': 3, 'rep': r, 'fix': [n, t]} for r in REPRS
+                for n in ('sys', 'proj', 'any') for t in SCOPES]
+    return out
+
+
 def cubes_table(tier, seed):
     out = []
     for si in range(len(SCOPE_LISTS)):
@@ -161,8 +249,10 @@ def cubes_table(tier, seed):
     return out
 
 
-HARNESSES = {'table': {'fn': run_table, 'cubes': cubes_table}}
-REQUIRED_COVER = ['gate', 'mismatch-not-enforced', 'no-gate'] + [
+HARNESSES = {'table': {'fn': run_table, 'cubes': cubes_table},
+             'history': {'fn': run_history, 'cubes': cubes_history}}
+REQUIRED_COVER = ['gate', 'mismatch-not-enforced', 'no-gate', 'history:gate',
+                  'history:mismatch-not-enforced'] + [
     'rep:' + r for r in REPRS]
 
 
@@ -175,7 +265,13 @@ def evidence(tier):
                    'enforce_scope x do_raise x overridden in the policy '
                    'file x by name / as check object x {dict, '
                    'RequestContext, to_policy_values()}; check outcomes '
-                   'symbolic -- the complete finite table' % len(SCOPE_LISTS)},
+                   'symbolic -- the complete finite table' % len(SCOPE_LISTS),
+                   'history': 'sequences of %s requests on one enforcer, each '
+                   'with its own enforce_scope setting (flipped through '
+                   'oslo.config between calls), token scope, one of 3 '
+                   'policies (system / project+domain / unscoped), do_raise; '
+                   '3 credential representations' % (
+                       '2' if tier == 'quick' else '2 and 3')},
         'symbols': ['leaf.a/b/c: Bool (default / override / object outcome)',
                     'has_system, has_domain, has_project, enforce_scope, '
                     'do_raise: Bool', 'spelling, by, falsy_system: menus'],
